@@ -28,12 +28,49 @@ PROPS = {
         level_text='Theorems (closed under the global context) that the emitted `eq` of every struct / enum computes field-wise equality over the non-ignored fields, for all type definitions, attribute assignments, values and field-type behaviours; the model is tied to /repo by K1 (token equality of the PartialEq/Eq impls on generated inputs) and the real compiled code is compared with an independent oracle on enumerated value pairs (K2).',
         level_note='Trusted: Coq kernel; the hand-written model (tied by K1 on sampled inputs, not proved equal to the Rust source); Sem/Interp.v as the meaning of the emitted Rust subset; rustc as oracle in K2.',
     ),
+    'C03': dict(
+        title='Ordering is lexicographic over non-ignored fields in rank order',
+        theorems=[],
+        streams=[stream('ord', 'items:PartialOrd,Ord', force=['Ord'], kinds=('struct', 'enum')),
+                 stream('pord', 'items:PartialOrd,Ord', force=['PartialOrd'], kinds=('struct', 'enum'))],
+        k2=['ord'],
+    ),
+    'C04': dict(
+        title='Enum variants order by declared discriminant, never by memory layout',
+        theorems=[],
+        streams=[stream('ordenum', 'items:PartialOrd,Ord', force=['Ord'], kinds=('enum',), n=(1000, 20000)),
+                 stream('pordenum', 'items:PartialOrd,Ord', force=['PartialOrd'], kinds=('enum',), n=(1000, 20000))],
+        k2=['ordlayout'],
+    ),
     'C05': dict(
-        claimed=False,
         title='Hash input is a function of the variant and non-ignored fields only',
         theorems=[],
         streams=[stream('hash', 'items:Hash', force=['Hash'], kinds=('struct', 'enum'))],
         k2=['hash'],
+    ),
+    'C06': dict(
+        title="Debug renders the effective shape exactly like core::fmt's builders",
+        theorems=[],
+        streams=[stream('debug', 'items:Debug', force=['Debug'], kinds=('struct', 'enum'))],
+        k2=['debug'],
+    ),
+    'C07': dict(
+        title='Clone and clone_from reproduce the source value field by field',
+        theorems=[],
+        streams=[stream('clone', 'items:Clone,Copy', force=['Clone'], kinds=('struct', 'enum', 'union'))],
+        k2=['clone'],
+    ),
+    'C08': dict(
+        title='Default builds exactly the designated value',
+        theorems=[],
+        streams=[stream('default', 'items:Default,inherent', force=['Default'], kinds=('struct', 'enum', 'union'))],
+        k2=['default'],
+    ),
+    'C20': dict(
+        title='Union impls are byte-wise and only generated behind an explicit unsafe',
+        theorems=[],
+        streams=[stream('union', 'whole', kinds=('union',), faults=0.3)],
+        k2=['union'],
     ),
 }
 
